@@ -37,7 +37,7 @@ def run(model, res, tier):
     shared_locks(model, res, c, 'R2')
     H.safely(res, 'R3', 'r3', _r3, model, res, c)
     H.safely(res, 'R4', 'r4', _r4, model, res, c)
-    n = purity.check_region(res, c, 'R5', None, c.reach, 'evaluation')
+    n = purity.check_region(res, c, 'R5', None, c.reach, 'evaluation', lints=('shared',))
     res.floor('mutation events examined for R5', n, 10)
     purity.check_memo(res, c, 'R5', c.reach, 'a function used during evaluation')
 
@@ -309,10 +309,25 @@ def _r3(model, res, c):
     # who writes the registry table
     writers = {}
     reg_attr = None
+    helper_writers = set()      # private methods that register_for hands the write to - and that nothing else refers to
     for k, (m, f) in cg.funcs.items():
         if f.name == 'register_for':
-            # the attribute subscripted in the closure
-            for n in ast.walk(f):
+            # the attribute subscripted in the closure - or in a method of the same class that register_for hands on
+            # (functools.partial(self._register, names)) or calls
+            scope = [f]
+            cls_prefix = k[1].rsplit('.', 1)[0] + '.' if '.' in k[1] else None
+            if cls_prefix:
+                for n in ast.walk(f):
+                    if isinstance(n, ast.Attribute) and isinstance(n.value, ast.Name) and n.value.id == sa.self_name(f):
+                        k2 = (k[0], cls_prefix + n.attr)
+                        if k2 in cg.funcs and cg.funcs[k2][1] is not f:
+                            scope.append(cg.funcs[k2][1])
+                            inside = set(id(x) for x in ast.walk(f))
+                            elsewhere = [x for mm in model.modules.values() for x in ast.walk(mm.tree)
+                                         if isinstance(x, ast.Attribute) and x.attr == n.attr and id(x) not in inside]
+                            if n.attr.startswith('_') and not elsewhere:
+                                helper_writers.add(k2)
+            for n in [x for g_ in scope for x in ast.walk(g_)]:
                 if isinstance(n, ast.Subscript) and isinstance(n.ctx, ast.Store) and isinstance(n.value, ast.Attribute):
                     reg_attr = n.value.attr
                 if isinstance(n, ast.Call) and isinstance(n.func, ast.Attribute) and n.func.attr in ('update', 'setdefault', '__setitem__') \
@@ -336,7 +351,7 @@ def _r3(model, res, c):
             if target is None:
                 continue
             n_w += 1
-            ok = 'register_for.<locals>.' in k[1]
+            ok = 'register_for.<locals>.' in k[1] or k in helper_writers
             res.ob('R3', fmt(k), 'write %s' % src(target), ok)
             if not ok:
                 res.violation('R3', '%s:%s:registry-write' % k, m.where(target),
